@@ -1012,9 +1012,24 @@ impl Exec {
     /// Ends the execution: fills every outstanding placeholder (newest first),
     /// re-checks, drains everything, drops everything, checks for leaks.
     pub fn finish(mut self, reverse_drop: bool) -> Result<(), String> {
+        // One history in three ends WITHOUT backfilling: the iovecs are dropped with placeholders still
+        // pending and the caller keeps the (now useless) Backref tokens a little longer.  A token is
+        // not one of the objects that own arena memory: the counters must be back once the iovecs,
+        // arenas and AnchoredSlices are gone.
+        let abandon = oracle(Oracle::Leak) && self.counter % 3 == 2;
+        let mut abandoned_tokens: Vec<Backref> = Vec::new();
         for si in 0..2 {
             let Some(s) = self.sides[si].as_mut() else { continue };
             let who = if si == 0 { "A" } else { "B" };
+            if abandon && !s.pending.is_empty() {
+                s.oracle(who).map_err(|e| format!("at the end: {}", e))?;
+                for p in s.pending.drain(..) {
+                    if let Some(t) = p.token {
+                        abandoned_tokens.push(t);
+                    }
+                }
+                continue;
+            }
             if s.pending.iter().any(|p| p.token.is_none()) {
                 // a clone that inherited placeholders can never show what lies behind them: it is
                 // only checked once more and dropped
@@ -1055,10 +1070,13 @@ impl Exec {
         let live1 = (ByteArena::num_live_chunks(), ByteArena::num_live_bytes());
         if live1 != live0 {
             return Err(format!(
-                "[leak] arena leak: live (chunks, bytes) went from {:?} to {:?} although every iovec, arena and AnchoredSlice was dropped",
-                live0, live1
+                "[leak] arena leak: live (chunks, bytes) went from {:?} to {:?} although every iovec, arena and AnchoredSlice was dropped{}",
+                live0,
+                live1,
+                if abandoned_tokens.is_empty() { String::new() } else { format!(" ({} placeholder(s) were left pending; the caller still holds their Backref tokens, which own nothing)", abandoned_tokens.len()) }
             ));
         }
+        drop(abandoned_tokens);
         Ok(())
     }
 }
